@@ -1,6 +1,7 @@
 package zzverif
 
 import (
+	"regexp"
 	"fmt"
 	"strings"
 )
@@ -87,8 +88,16 @@ func genPkgInput(r *Rand, w *Workload, pkg string, format string, opts GenOpts) 
 		return InputSpec{Kind: "openapi", Path: path, Package: pkg, NoValidate: r.Bool()}, p
 	default:
 		dir := "in/gen_" + pkg + "/" + pkg
-		w.Files[dir+"/schema.cue"] = p.RenderCUE(pkg)
-		return InputSpec{Kind: "cue", Path: dir, Package: pkg}, p
+		doc := p.RenderCUE(pkg)
+		in := InputSpec{Kind: "cue", Path: dir, Package: pkg}
+		if sr := r.Side("cue-envelope:" + pkg); sr.Chance(1, 4) {
+			// dataquery style: regular fields instead of definitions, used as types by
+			// their siblings, wrapped in a forced envelope
+			doc = cueDefRef.ReplaceAllString(doc, "$1")
+			in.ForcedEnvelope = Pick(sr, []string{"Envelope", "DataQuery"})
+		}
+		w.Files[dir+"/schema.cue"] = doc
+		return in, p
 	}
 }
 
@@ -97,6 +106,13 @@ func genPkgInput(r *Rand, w *Workload, pkg string, format string, opts GenOpts) 
 func AddFinalPasses(r *Rand, w *Workload) {
 	n := 1 + r.Intn(2)
 	w.FinalPasses = Shuffled(r, FinalPassNames)[:n]
+	if r.Chance(1, 3) {
+		// the one pass of the list that keeps per-run state in its own fields
+		w.FinalPasses[0] = "InlineObjectsWithTypes"
+		if n == 2 && w.FinalPasses[1] == "InlineObjectsWithTypes" {
+			w.FinalPasses = w.FinalPasses[:1]
+		}
+	}
 	w.Name += " +final:" + strings.Join(w.FinalPasses, ",")
 }
 
@@ -130,6 +146,8 @@ func AddCaseTwin(r *Rand, w *Workload) bool {
 	w.Name += " +case-twin:" + twin.Package
 	return true
 }
+
+var cueDefRef = regexp.MustCompile(`#([A-Za-z_][A-Za-z0-9_]*)`)
 
 var genPkgNames = []string{"pkga", "pkgb", "pkgc", "dashboard", "common", "panelz"}
 
